@@ -435,6 +435,71 @@ def badd(a, b):
 
 COMPS = ["x", "y", "z", "vx", "vy", "vz"]
 
+SHAPES = ["generic", "generic", "generic", "centred_pairs", "single_origin", "single_generic", "star_massless", "star_origin", "already_com", "already_hel"]
+VARKINDS = ["generic", "generic", "zero", "mass_only", "coord_only", "one_coordinate"]
+
+
+def real_shape(rng, shape):
+    """list of (m, x, y, z, vx, vy, vz) for the real particles; the degenerate shapes are the edges of the frame operations:
+    centre of mass exactly (or to the last bit) zero, a single particle, only massless companions, particle 0 already at rest at the origin"""
+    sc = 10 ** rng.uniform(-2, 2)
+    g = lambda s=1.0: rng.gauss(0, 1) * s
+    if shape == "centred_pairs":
+        out = []
+        if rng.random() < 0.4:
+            out.append((rng.uniform(0.1, 3), 0.0, 0.0, 0.0, 0.0, 0.0, 0.0))
+        for _ in range(rng.randint(1, 2)):
+            m = rng.uniform(0.1, 3); r = [g(sc), g(sc), g(sc), g(), g(), g()]
+            out.append((m,) + tuple(r)); out.append((m,) + tuple(-x for x in r))
+        return out
+    if shape == "single_origin":
+        return [(rng.uniform(0.1, 3), 0.0, 0.0, 0.0, 0.0, 0.0, 0.0)]
+    if shape == "single_generic":
+        return [(rng.uniform(0.1, 3), g(sc), g(sc), g(sc), g(), g(), g())]
+    if shape == "star_massless":
+        return [(rng.uniform(0.1, 3), 0.0, 0.0, 0.0, 0.0, 0.0, 0.0)] + [(0.0, g(sc), g(sc), g(sc), g(), g(), g()) for _ in range(rng.randint(1, 3))]
+    if shape == "star_origin":
+        return [(rng.uniform(0.1, 3), 0.0, 0.0, 0.0, 0.0, 0.0, 0.0)] + [(10 ** rng.uniform(-6, 0), g(sc), g(sc), g(sc), g(), g(), g()) for _ in range(rng.randint(1, 3))]
+    n = rng.randint(1, 6)
+    off = [g(sc * 10) for _ in range(6)] if rng.random() < 0.5 else [0.0] * 6
+    out = []
+    for i in range(n):
+        u = rng.random()
+        m = rng.uniform(0.1, 10) if i == 0 else (0.0 if u < 0.15 else (10 ** rng.uniform(-10, -1) if u < 0.5 else rng.uniform(1e-3, 2)))
+        out.append((m, off[0] + g(sc), off[1] + g(sc), off[2] + g(sc), off[3] + g(), off[4] + g(), off[5] + g()))
+    return out
+
+
+def build_real(rebound, rng, shape):
+    sim = rebound.Simulation()
+    for (m, x, y, z, vx, vy, vz) in real_shape(rng, shape):
+        sim.add(m=m, x=x, y=y, z=z, vx=vx, vy=vy, vz=vz)
+    if shape == "already_com":
+        sim.move_to_com()
+    if shape == "already_hel":
+        sim.move_to_hel()
+    return sim
+
+
+def fill_variations(rng, sim, kind, n_real, mscale=0.1):
+    """values of all variational particles: generic, all zero, a variation of the masses only, of the coordinates only, of one coordinate of one body"""
+    for i in range(n_real, sim.N):
+        p = sim.particles[i]
+        p.m = 0.0
+        for c in COMPS:
+            setattr(p, c, 0.0)
+        if kind == "generic":
+            p.m = 0.0 if rng.random() < 0.3 else rng.gauss(0, mscale)
+            for c in COMPS:
+                setattr(p, c, rng.gauss(0, 1))
+        elif kind == "mass_only":
+            p.m = rng.choice([-1, 1]) * rng.uniform(0.01, 0.3)
+        elif kind == "coord_only":
+            for c in COMPS:
+                setattr(p, c, rng.gauss(0, 1))
+        elif kind == "one_coordinate" and (i - n_real) % n_real == 0:
+            setattr(p, rng.choice(COMPS), 1.0)
+
 
 def search_frames(ctx, fd, rebound):
     rng = ctx.rng
@@ -444,18 +509,13 @@ def search_frames(ctx, fd, rebound):
 
     for k in range(ctx.scale(600, 6000)):
         ctx.evaluations += 1
-        sim = rebound.Simulation()
-        n = rng.randint(1, 6)
-        sc = 10 ** rng.uniform(-2, 2)
-        off = [rng.gauss(0, 1) * sc * 10 for _ in range(6)] if rng.random() < 0.5 else [0.0] * 6
-        for i in range(n):
-            u = rng.random()
-            m = rng.uniform(0.1, 10) if i == 0 else (0.0 if u < 0.15 else (10 ** rng.uniform(-10, -1) if u < 0.5 else rng.uniform(1e-3, 2)))
-            sim.add(m=m, x=off[0] + rng.gauss(0, 1) * sc, y=off[1] + rng.gauss(0, 1) * sc, z=off[2] + rng.gauss(0, 1) * sc,
-                    vx=off[3] + rng.gauss(0, 1), vy=off[4] + rng.gauss(0, 1), vz=off[5] + rng.gauss(0, 1))
+        shape = SHAPES[k % len(SHAPES)] if k % 2 == 0 else "generic"
+        sim = build_real(rebound, rng, shape)
+        n = sim.N
         mode = k % 3
         v1 = v1b = v2 = vt = None
         directed = mode != 2 and k < 60     # two first-order sets, both with mass variations of every particle, + their mixed second-order set
+        vkind = "generic"
         if directed or rng.random() < 0.7:
             v1 = sim.add_variation()
             if directed or rng.random() < 0.6:
@@ -463,15 +523,16 @@ def search_frames(ctx, fd, rebound):
                 v2 = sim.add_variation(order=2, first_order=v1, first_order_2=v1b)
             if rng.random() < 0.3:
                 vt = sim.add_variation(testparticle=rng.randrange(n))
-            for i in range(n, sim.N):
-                p = sim.particles[i]
-                p.m = (rng.choice([-1, 1]) * rng.uniform(0.01, 0.3)) if directed else (0.0 if rng.random() < 0.3 else rng.gauss(0, 0.1))
-                for c in COMPS:
-                    setattr(p, c, rng.gauss(0, 1))
+            vkind = "generic" if directed else rng.choice(VARKINDS)
+            fill_variations(rng, sim, vkind, n)
+            if directed:
+                for i in range(n, sim.N):
+                    sim.particles[i].m = rng.choice([-1, 1]) * rng.uniform(0.01, 0.3)
         b = snap(sim)
         ms = [F(b[i][0]) for i in range(n)]
         Mt = sum(ms)
-        rep = {"N_real": n, "particles_before": b, "variations": [(v.order, v.index, v.testparticle) for v in (v1, v1b, v2, vt) if v is not None]}
+        rep = {"N_real": n, "shape": shape, "variation_kind": vkind, "particles_before": b,
+               "variations": [(v.order, v.index, v.testparticle) for v in (v1, v1b, v2, vt) if v is not None]}
         if mode in (0, 1):
             sim.move_to_com()
             a = snap(sim)
@@ -511,6 +572,38 @@ def search_frames(ctx, fd, rebound):
                                         "move_to_com: %s-order variational particles are not shifted by the corresponding variation of the centre of mass" % nm)
                 if vt is not None and any(a[vt.index][j] != b[vt.index][j] for j in range(7)):
                     fd.fail("move_to_com:testparticle-variation", dict(rep, particles_after=a), "move_to_com changed a test-particle variation")
+            # idempotence: a second call finds the system (and its variations) already centred
+            scale_all = max([abs(x) for p_ in b for x in p_[1:]] + [1.0])
+            vmx = (max([abs(b[j][0]) for j in range(n, sim.N)] + [0.0])) / float(abs(Mt))
+            tol2 = 512 * (n + 2) * EPS * scale_all * (1 + vmx) ** 2 * float(sum(abs(x) for x in ms) / abs(Mt))
+            sim.move_to_com()
+            a2 = snap(sim)
+            if any(abs(x - y) > tol2 for pa, pb in zip(a2, a) for x, y in zip(pa[1:], pb[1:])):
+                fd.fail("move_to_com:idempotent", dict(rep, after_first=a, after_second=a2), "a second move_to_com moves particles (real or variational) beyond rounding")
+            # variations added AFTER a first move_to_com and then move_to_com again: same result (the variation of the COM does not depend on the frame)
+            if v1 is not None:
+                sb = rebound.Simulation()
+                for i in range(n):
+                    sb.add(m=b[i][0], x=b[i][1], y=b[i][2], z=b[i][3], vx=b[i][4], vy=b[i][5], vz=b[i][6])
+                sb.move_to_com()
+                w1 = sb.add_variation()
+                w1b = w1
+                if v2 is not None:
+                    w1b = sb.add_variation() if v1b.index != v1.index else w1
+                    sb.add_variation(order=2, first_order=w1, first_order_2=w1b)
+                if vt is not None:
+                    sb.add_variation(testparticle=vt.testparticle)
+                if sb.N == len(b):
+                    for i in range(n, sb.N):
+                        pp = sb.particles[i]
+                        pp.m = b[i][0]
+                        for ci, c in enumerate(COMPS):
+                            setattr(pp, c, b[i][1 + ci])
+                    sb.move_to_com()
+                    ab = snap(sb)
+                    if any(abs(x - y) > tol2 for pa, pb in zip(ab, a) for x, y in zip(pa[1:], pb[1:])):
+                        fd.fail("move_to_com:variations-before-vs-after", dict(rep, variations_first=a, frame_first=ab),
+                                "adding the variations before or after a first move_to_com gives different particles after move_to_com")
         else:
             sim.move_to_hel()
             a = snap(sim)
@@ -524,6 +617,9 @@ def search_frames(ctx, fd, rebound):
             if any(a[i][j] != b[i][j] for i in range(n, sim.N) for j in range(7)):
                 fd.fail("move_to_hel:variational", dict(rep, particles_after=a),
                         "move_to_hel changed a variational particle (documented: all particles are moved by the same amount, variational equations are not affected)")
+            sim.move_to_hel()
+            if snap(sim) != a:
+                fd.fail("move_to_hel:idempotent", dict(rep, after_first=a, after_second=snap(sim)), "a second move_to_hel changes particles")
         if any(a[i][0] != b[i][0] for i in range(sim.N)):
             fd.fail("frames:mass", dict(rep, particles_after=a), "a frame shift changed a mass")
     # ---- scaling, adding, subtracting simulations (python operators)
@@ -583,7 +679,7 @@ def search_whole_sim_var(ctx, fd, rebound):
         sim.integrator = integ
         sim.dt = 0.01
         sim.add(m=1.0, vx=r2.gauss(0, 0.01), vy=r2.gauss(0, 0.01))
-        npl = r2.randint(1, 3)
+        npl = r2.randint(1, 3) if (kind == "megno" or r2.random() < 0.85) else 0     # 0: a single particle (N_real = 1)
         for i in range(npl):
             sim.add(m=10 ** r2.uniform(-6, -3), a=1.0 + 0.7 * i + r2.uniform(0, 0.2), e=r2.uniform(0, 0.2), inc=r2.uniform(0, 0.5),
                     Omega=r2.uniform(0, 6), omega=r2.uniform(0, 6), f=r2.uniform(0, 6))
@@ -601,11 +697,9 @@ def search_whole_sim_var(ctx, fd, rebound):
                 else:
                     firsts.append(sim.add_variation(order=1)); sets.append("1st")
             n = sim.N - sim.N_var
-            for i in range(n, sim.N):
-                p = sim.particles[i]
-                for c in C6:
-                    setattr(p, c, r2.gauss(0, 1))
-                p.m = 0.0 if r2.random() < 0.5 else r2.gauss(0, 1e-4)
+            vk = r2.choice(VARKINDS)
+            sets.append("variation values: " + vk)
+            fill_variations(r2, sim, vk, n, mscale=1e-4)
         return sim, sets
 
     for k in range(ctx.scale(45, 600)):
@@ -614,7 +708,8 @@ def search_whole_sim_var(ctx, fd, rebound):
         integ = "ias15" if kind == "second" else rng.choice(["ias15", "whfast", "leapfrog"])
         seed = rng.randrange(10 ** 9)
         a = gvec(rng); b = [-x for x in a] if rng.random() < 0.15 else gvec(rng)
-        q = R.from_to(a, b) if rng.random() < 0.6 else R(angle=rng.uniform(-6, 6), axis=gvec(rng))
+        u = rng.random()
+        q = R.from_to(a, b) if u < 0.55 else (R(angle=rng.uniform(-6, 6), axis=gvec(rng)) if u < 0.9 else R())     # R(): identity, already in the target frame
         qv = [q.ix, q.iy, q.iz, q.r]
         sim, sets = build(kind, integ, seed)
         n_real = sim.N - sim.N_var
@@ -636,6 +731,15 @@ def search_whole_sim_var(ctx, fd, rebound):
                     "sim.rotate(q) does not rotate %s particle %d like a vector (a linear map acts on variations as on coordinates)"
                     % ("variational" if bad["variational"] else "real", bad["particle"]))
             continue
+        # the operation applied to its own result: every particle is the exact rotation of its first image
+        sim.rotate(q)
+        twice = snap(sim)
+        for i in range(sim.N):
+            for o in (0, 3):
+                ex = xrot(qv, after[i][o:o + 3])
+                if max(abs(F(g) - e) for g, e in zip(twice[i][o:o + 3], ex)) > 64 * EPS * max(nrm(after[i][o:o + 3]), 1e-300):
+                    fd.fail("simulation:rotate-twice", dict(rep, particle=i, variational=i >= n_real), "a second sim.rotate(q) does not rotate every particle of the rotated simulation")
+        sim.rotate(q.inverse())
         # R * sim (copy) gives the same particles as sim.rotate
         sim0, _ = build(kind, integ, seed)
         cp = q * sim0
